@@ -46,6 +46,7 @@ type stats struct {
 	GoStmts          int      `json:"go_stmts"`
 	Selects          int      `json:"selects"`
 	Recvs            int      `json:"recvs"`
+	Sends            int      `json:"sends"`
 	Closes           int      `json:"closes"`
 	MapRanges        int      `json:"map_ranges"`
 	ReadHooks        int      `json:"read_hooks"`
@@ -368,17 +369,59 @@ func (in *inst) rewrite(root ast.Node) {
 		case *ast.UnaryExpr:
 			if n.Op == token.ARROW {
 				if _, isStmt := c.Parent().(*ast.ExprStmt); !isStmt {
-					if _, inComm := c.Parent().(*ast.CommClause); !inComm {
-						in.st.Uninstrumented = append(in.st.Uninstrumented, "recv-expr@"+in.fset.Position(n.Pos()).String())
+					// a receive whose value is used: `v := <-ch`, `v, ok := <-ch`, `f(<-ch)`
+					in.needSched = true
+					in.st.Recvs++
+					fn := "Recv1"
+					switch p := c.Parent().(type) {
+					case *ast.AssignStmt:
+						if len(p.Lhs) == 2 && len(p.Rhs) == 1 {
+							fn = "Recv2"
+						}
+					case *ast.ValueSpec:
+						if len(p.Names) == 2 && len(p.Values) == 1 {
+							fn = "Recv2"
+						}
 					}
+					c.Replace(&ast.CallExpr{Fun: sched(fn), Args: []ast.Expr{n.X}})
 				}
 			}
 		case *ast.SendStmt:
-			in.st.Uninstrumented = append(in.st.Uninstrumented, "send@"+in.fset.Position(n.Pos()).String())
+			in.needSched = true
+			in.st.Sends++
+			c.Replace(&ast.ExprStmt{X: &ast.CallExpr{Fun: sched("SendT"), Args: []ast.Expr{n.Chan, n.Value}}})
 		case *ast.RangeStmt:
 			if t := in.rangeTypes[n]; t != nil {
 				if _, ok := t.Underlying().(*types.Chan); ok {
-					in.st.Uninstrumented = append(in.st.Uninstrumented, "range-chan@"+in.fset.Position(n.Pos()).String())
+					// for x := range ch {B}  =>  for { x, vrangeOk := vsched.Recv2(ch); if !vrangeOk {break}; B }
+					in.needSched = true
+					in.st.Recvs++
+					var lhs ast.Expr = ast.NewIdent("_")
+					tok := token.DEFINE
+					if n.Key != nil {
+						lhs = n.Key
+						if n.Tok == token.ASSIGN {
+							tok = token.ASSIGN
+						}
+					}
+					okId := ast.NewIdent("vrangeOk")
+					var recv ast.Stmt
+					if tok == token.ASSIGN {
+						recv = &ast.BlockStmt{List: []ast.Stmt{
+							&ast.DeclStmt{Decl: &ast.GenDecl{Tok: token.VAR, Specs: []ast.Spec{&ast.ValueSpec{Names: []*ast.Ident{okId}, Type: ast.NewIdent("bool")}}}},
+						}}
+					}
+					call := &ast.CallExpr{Fun: sched("Recv2"), Args: []ast.Expr{n.X}}
+					var pre []ast.Stmt
+					if recv != nil {
+						pre = append(pre, recv.(*ast.BlockStmt).List...)
+						pre = append(pre, &ast.AssignStmt{Lhs: []ast.Expr{lhs, okId}, Tok: token.ASSIGN, Rhs: []ast.Expr{call}})
+					} else {
+						pre = append(pre, &ast.AssignStmt{Lhs: []ast.Expr{lhs, okId}, Tok: token.DEFINE, Rhs: []ast.Expr{call}})
+					}
+					pre = append(pre, &ast.IfStmt{Cond: &ast.UnaryExpr{Op: token.NOT, X: okId}, Body: &ast.BlockStmt{List: []ast.Stmt{&ast.BranchStmt{Tok: token.BREAK}}}})
+					c.Replace(&ast.ForStmt{Body: &ast.BlockStmt{List: append(pre, n.Body.List...)}})
+					return true
 				}
 				if _, ok := t.Underlying().(*types.Map); ok {
 					in.rangeMap(n)
@@ -456,14 +499,29 @@ func (in *inst) goStmt(g *ast.GoStmt) ast.Stmt {
 	return &ast.BlockStmt{List: append(pre, spawn)}
 }
 
-// selectStmt rewrites a select whose cases are plain receives `case <-ch:`
-// (plus optional default) into a switch over vsched.Select.
+// selectStmt rewrites a select into a switch over vsched.Select. Cases: plain receives `case <-ch:`, receives which
+// keep the value `case v := <-ch:` / `case v, ok := <-ch:`, sends `case ch <- x:`, and default. (The operands have
+// been rewritten by the time the select is visited: a receive statement is a vsched.Select call, a receive expression
+// a vsched.Recv1 / Recv2 call, a send statement a vsched.SendT call.)
 func (in *inst) selectStmt(s *ast.SelectStmt) ast.Stmt {
 	var chans []ast.Expr
 	hasDefault := false
+	needVals := false
 	type cl struct {
 		idx  int
 		body []ast.Stmt
+	}
+	isSched := func(e ast.Expr, name string) (*ast.CallExpr, bool) {
+		call, ok := e.(*ast.CallExpr)
+		if !ok {
+			return nil, false
+		}
+		sel, ok := call.Fun.(*ast.SelectorExpr)
+		if !ok {
+			return nil, false
+		}
+		x, ok := sel.X.(*ast.Ident)
+		return call, ok && x.Name == "vsched" && sel.Sel.Name == name
 	}
 	var clauses []cl
 	for _, st := range s.Body.List {
@@ -473,32 +531,70 @@ func (in *inst) selectStmt(s *ast.SelectStmt) ast.Stmt {
 			clauses = append(clauses, cl{-1, cc.Body})
 			continue
 		}
-		es, ok := cc.Comm.(*ast.ExprStmt)
-		if !ok {
-			in.st.Uninstrumented = append(in.st.Uninstrumented, "select-case@"+in.fset.Position(cc.Pos()).String())
-			return nil
-		}
-		var ch ast.Expr
-		switch x := es.X.(type) {
-		case *ast.UnaryExpr:
-			if x.Op != token.ARROW {
+		body := cc.Body
+		var arg ast.Expr
+		switch comm := cc.Comm.(type) {
+		case *ast.ExprStmt:
+			switch x := comm.X.(type) {
+			case *ast.UnaryExpr:
+				if x.Op != token.ARROW {
+					return nil
+				}
+				arg = x.X
+			case *ast.CallExpr:
+				if call, ok := isSched(x, "Select"); ok && len(call.Args) == 2 {
+					// already rewritten receive statement: vsched.Select(false, ch)
+					arg = call.Args[1]
+					in.st.Recvs--
+				} else if call, ok := isSched(x, "SendT"); ok && len(call.Args) == 2 {
+					arg = &ast.CompositeLit{Type: sched("SendCase"), Elts: []ast.Expr{
+						&ast.KeyValueExpr{Key: ast.NewIdent("Ch"), Value: call.Args[0]},
+						&ast.KeyValueExpr{Key: ast.NewIdent("V"), Value: call.Args[1]}}}
+					in.st.Sends--
+				} else {
+					in.st.Uninstrumented = append(in.st.Uninstrumented, "select-case@"+in.fset.Position(cc.Pos()).String())
+					return nil
+				}
+			default:
+				in.st.Uninstrumented = append(in.st.Uninstrumented, "select-case@"+in.fset.Position(cc.Pos()).String())
 				return nil
 			}
-			ch = x.X
-		case *ast.CallExpr:
-			// already rewritten receive statement: vsched.Select(false, ch)
-			if len(x.Args) == 2 {
-				ch = x.Args[1]
-				in.st.Recvs--
-			} else {
+		case *ast.AssignStmt:
+			// case v := <-ch  /  case v, ok := <-ch   (the receive is a vsched.Recv1 / Recv2 call by now)
+			if len(comm.Rhs) != 1 {
 				return nil
 			}
+			call, ok := isSched(comm.Rhs[0], "Recv1")
+			if !ok {
+				call, ok = isSched(comm.Rhs[0], "Recv2")
+			}
+			if !ok || len(call.Args) != 1 {
+				in.st.Uninstrumented = append(in.st.Uninstrumented, "select-case@"+in.fset.Position(cc.Pos()).String())
+				return nil
+			}
+			in.st.Recvs--
+			arg = call.Args[0]
+			needVals = true
+			var pre []ast.Stmt
+			val := &ast.CallExpr{Fun: sched("ValOf"), Args: []ast.Expr{call.Args[0], ast.NewIdent("vselVal")}}
+			pre = append(pre, &ast.AssignStmt{Lhs: []ast.Expr{ast.NewIdent("_")}, Tok: token.ASSIGN, Rhs: []ast.Expr{ast.NewIdent("vselOk")}})
+			pre = append(pre, &ast.AssignStmt{Lhs: []ast.Expr{comm.Lhs[0]}, Tok: comm.Tok, Rhs: []ast.Expr{val}})
+			if id, ok := comm.Lhs[0].(*ast.Ident); ok && comm.Tok == token.DEFINE && id.Name != "_" {
+				pre = append(pre, &ast.AssignStmt{Lhs: []ast.Expr{ast.NewIdent("_")}, Tok: token.ASSIGN, Rhs: []ast.Expr{ast.NewIdent(id.Name)}})
+			}
+			if len(comm.Lhs) == 2 {
+				pre = append(pre, &ast.AssignStmt{Lhs: []ast.Expr{comm.Lhs[1]}, Tok: comm.Tok, Rhs: []ast.Expr{ast.NewIdent("vselOk")}})
+				if id, ok := comm.Lhs[1].(*ast.Ident); ok && comm.Tok == token.DEFINE && id.Name != "_" {
+					pre = append(pre, &ast.AssignStmt{Lhs: []ast.Expr{ast.NewIdent("_")}, Tok: token.ASSIGN, Rhs: []ast.Expr{ast.NewIdent(id.Name)}})
+				}
+			}
+			body = append(pre, body...)
 		default:
 			in.st.Uninstrumented = append(in.st.Uninstrumented, "select-case@"+in.fset.Position(cc.Pos()).String())
 			return nil
 		}
-		clauses = append(clauses, cl{len(chans), cc.Body})
-		chans = append(chans, ch)
+		clauses = append(clauses, cl{len(chans), body})
+		chans = append(chans, arg)
 	}
 	in.needSched = true
 	in.st.Selects++
@@ -508,19 +604,28 @@ func (in *inst) selectStmt(s *ast.SelectStmt) ast.Stmt {
 	}
 	args := append([]ast.Expr{ast.NewIdent(def)}, chans...)
 	idx := ast.NewIdent("vselIdx")
-	assign := &ast.AssignStmt{Lhs: []ast.Expr{idx, ast.NewIdent("_"), ast.NewIdent("_")}, Tok: token.DEFINE,
-		Rhs: []ast.Expr{&ast.CallExpr{Fun: sched("Select"), Args: args}}}
+	lhs := []ast.Expr{idx, ast.NewIdent("_"), ast.NewIdent("_")}
+	if needVals {
+		lhs = []ast.Expr{idx, ast.NewIdent("vselVal"), ast.NewIdent("vselOk")}
+	}
+	assign := &ast.AssignStmt{Lhs: lhs, Tok: token.DEFINE, Rhs: []ast.Expr{&ast.CallExpr{Fun: sched("Select"), Args: args}}}
 	sw := &ast.SwitchStmt{Init: assign, Tag: idx, Body: &ast.BlockStmt{}}
+	// a select is a terminating statement when all its cases are; the switch is one when it also has a default clause
 	for _, c := range clauses {
+		if c.idx == -1 {
+			sw.Body.List = append(sw.Body.List, &ast.CaseClause{List: nil, Body: c.body})
+			continue
+		}
 		sw.Body.List = append(sw.Body.List, &ast.CaseClause{
 			List: []ast.Expr{&ast.BasicLit{Kind: token.INT, Value: strconv.Itoa(c.idx)}},
 			Body: c.body,
 		})
 	}
-	// break inside a select case leaves the select; inside the switch it leaves the switch: same meaning.
-	if s.Body != nil {
-		return sw
+	if !hasDefault {
+		sw.Body.List = append(sw.Body.List, &ast.CaseClause{List: nil, Body: []ast.Stmt{&ast.ExprStmt{X: &ast.CallExpr{Fun: ast.NewIdent("panic"),
+			Args: []ast.Expr{&ast.BasicLit{Kind: token.STRING, Value: `"vsched: select returned no case"`}}}}}})
 	}
+	// break inside a select case leaves the select; inside the switch it leaves the switch: same meaning.
 	return sw
 }
 
